@@ -4,6 +4,7 @@ import (
 	"github.com/basecomplextech/baselibrary/alloc"
 	"github.com/basecomplextech/baselibrary/alloc/bytequeue"
 	"github.com/basecomplextech/baselibrary/async"
+	"github.com/basecomplextech/baselibrary/bin"
 	"github.com/basecomplextech/baselibrary/status"
 	"github.com/basecomplextech/spec/internal/zzverif"
 	"github.com/basecomplextech/spec/proto/pmpx"
@@ -203,4 +204,27 @@ func (f *zzFlag) IsSet() bool         { return f.set }
 func (f *zzFlag) Wait() <-chan struct{} { return f.ch }
 func (f *zzFlag) Set()                { f.set = true }
 func (f *zzFlag) Unset()              { f.set = false }
+
+
+// ---- a channel state built directly (shared by C07 and C09) -----------------------------------------------
+
+const zzMaxW = 1 << 30
+
+func zzC07state(w int32) (*channelState, *zzConn, *zzVirtQueue) {
+	conn := &zzConn{}
+	q := &zzVirtQueue{}
+	q.wait = make(chan struct{}, 1)
+	s := &channelState{
+		id:             bin.Bin128{},
+		ctx:            &context{CancelContext: zzNewCtx(), conn: conn},
+		conn:           conn,
+		client:         true,
+		initWindow:     w,
+		sendWindowWait: make(chan struct{}, 1),
+		recvQueue:      q,
+	}
+	s.opened.Store(true)
+	s.sender = newChanSender(s, conn)
+	return s, conn, q
+}
 
